@@ -1,6 +1,8 @@
 """C20 - Middleware is transparent to what it does not change."""
 from __future__ import annotations
 
+import re
+
 from hypothesis import strategies as st
 
 from harness import core, gateways as gw, gen, recipes
@@ -31,7 +33,9 @@ def fold(pairs):
     for k, v in pairs:
         k = k.lower()
         if k == "set-cookie":
-            cookies.append(v)
+            # Expires is computed from the wall clock when the recipe is built: bare and wrapped
+            # builds may fall into different seconds
+            cookies.append(re.sub(r"expires=[^;]+", "expires=<T>", v))
         elif k in out:
             out[k] = out[k] + ", " + v
         else:
